@@ -20,8 +20,16 @@ namespace GnoVerif.C13
 
 abbrev Str := List Char
 
-/-- string literal → model string -/
-abbrev lit (s : String) : Str := s.toList
+/-- string literal → model string (runtime conversion; proofs use `L!"…"`) -/
+def lit (s : String) : Str := s.toList
+
+/- `L!"abc"` expands AT ELABORATION TIME to the explicit list `['a','b','c']`,
+    so that definitions and examples never make the kernel evaluate
+    `String.toList` (UTF-8 decoding by well-founded recursion). -/
+open Lean in
+macro "L!" s:str : term => do
+  let elems : Array (TSyntax `term) := s.getString.toList.toArray.map fun c => ⟨Syntax.mkCharLit c⟩
+  `([$elems,*])
 
 def colon : Char := ':'
 
@@ -65,11 +73,11 @@ def Err.token : Err → String
 def pkey (rlmPath key : Str) : Except Err Str :=
   if key.isEmpty then .error .emptyKey
   else if hasColon key then .error .colonKey
-  else .ok (lit "vm:" ++ rlmPath ++ colon :: key)
+  else .ok (L!"vm:" ++ rlmPath ++ colon :: key)
 
 /-! ## sys/params: `assertSysParamsRealm`, `prmkey` -/
 
-def sysParamsRealm : Str := lit "gno.land/r/sys/params"
+def sysParamsRealm : Str := L!"gno.land/r/sys/params"
 
 /-- `prmkey(module, submodule, name)`: only `name` is checked for ':' and only
     `submodule` for emptiness — in that order. -/
@@ -253,7 +261,7 @@ def isRealmPath (p : Str) : Bool :=
   | _ :: letter :: _ :: repo =>
     letter == ['r'] &&
     (match repo.getLast? with
-     | some last => !endsWith last (lit "_test")
+     | some last => !endsWith last (L!"_test")
      | none => true)
   | _ => false
 
@@ -285,20 +293,20 @@ inductive VmField
 
 /-- the `switch key` of `WillSetParam`: raw key (after "vm:") ↦ field kind -/
 def vmField (rawKey : Str) : Option VmField :=
-  if rawKey = lit "p:sysnames_pkgpath" then some .pkgPath
-  else if rawKey = lit "p:syscla_pkgpath" then some .pkgPath
-  else if rawKey = lit "p:chain_domain" then some .chainDomain
-  else if rawKey = lit "p:default_deposit" then some .ext
-  else if rawKey = lit "p:storage_price" then some .ext
-  else if rawKey = lit "p:storage_fee_collector" then some .ext
-  else if rawKey = lit "p:min_get_read_depth_100" then some .depth
-  else if rawKey = lit "p:min_set_read_depth_100" then some .depth
-  else if rawKey = lit "p:min_write_depth_100" then some .depth
-  else if rawKey = lit "p:fixed_get_read_depth_100" then some .depth
-  else if rawKey = lit "p:fixed_set_read_depth_100" then some .depth
-  else if rawKey = lit "p:fixed_write_depth_100" then some .depth
-  else if rawKey = lit "p:iter_next_cost_flat" then some .positive
-  else if rawKey = lit "p:preprocess_gas_per_byte" then some .positive
+  if rawKey = L!"p:sysnames_pkgpath" then some .pkgPath
+  else if rawKey = L!"p:syscla_pkgpath" then some .pkgPath
+  else if rawKey = L!"p:chain_domain" then some .chainDomain
+  else if rawKey = L!"p:default_deposit" then some .ext
+  else if rawKey = L!"p:storage_price" then some .ext
+  else if rawKey = L!"p:storage_fee_collector" then some .ext
+  else if rawKey = L!"p:min_get_read_depth_100" then some .depth
+  else if rawKey = L!"p:min_set_read_depth_100" then some .depth
+  else if rawKey = L!"p:min_write_depth_100" then some .depth
+  else if rawKey = L!"p:fixed_get_read_depth_100" then some .depth
+  else if rawKey = L!"p:fixed_set_read_depth_100" then some .depth
+  else if rawKey = L!"p:fixed_write_depth_100" then some .depth
+  else if rawKey = L!"p:iter_next_cost_flat" then some .positive
+  else if rawKey = L!"p:preprocess_gas_per_byte" then some .positive
   else none
 
 /-- per-field part of `Params.Validate` (the other fields keep their already
@@ -322,7 +330,7 @@ inductive VmBranch
 def vmBranch (rawKey : Str) : VmBranch :=
   match vmField rawKey with
   | some f => .moduleParam f
-  | none => if (lit "p:").isPrefixOf rawKey then .unknownModuleParam else .realmParam
+  | none => if (L!"p:").isPrefixOf rawKey then .unknownModuleParam else .realmParam
 
 /-- gno.land/pkg/sdk/vm/params.go `WillSetParam` -/
 def vmWillSet (ext : Str → Str → Bool) : WillSet := fun rawKey v =>
